@@ -343,6 +343,7 @@ LEVEL_TEXT = ('Generated-input search: for each generated configuration (filter 
               'the matrix of the function computed in the forward pass is extracted without autograd, and the hand-written '
               'backward passes are required to produce its exact transpose for basis cotangents (whole Jacobian when <= 640 '
               'rows) and dense cotangents, with no None gradients for members of the subset.')
+LEVEL_TEXT += (' Also generated: every padding-mode name the constructors accept, masks as list / tuple / ndarray / 0-1 integers, modules with a past, filters overwritten in place between forward and backward.')
 LEVEL_NOTE = ('Float64, sizes <= 14x14, J <= 3; the oracle is the library forward itself, so C06 is independent of C03/C11; '
               'relies on linearity (the Jacobian does not depend on the input), which C07 checks.')
 TECHNIQUE = 'property-based testing (Hypothesis), adjoint oracle: autograd VJP vs transposed forward matrix'
